@@ -133,6 +133,33 @@ def make_program(kind, seed, extra=()):
                         fid = "X%d" % nf[0]
                         defs["flib"][fid] = f
                         crec["f"] = fid
+        # object-valued references into the tree of P in the three modes, USED in a way that
+        # tells the instance from the base (exporter.py:220-247, ref_copies): `o.p` is the
+        # argument of the instance when o is re-bound into it, a NameError when o stays the base
+        cells_at = {tuple(q): cs for q, cs in defs["cells"]}
+        refs_at = {tuple(q): rs for q, rs in defs["refs"]}
+        if rng.random() < 0.75:
+            tgts = [["sp", ["P"], [], ""], ["sp", ["P", "C"], [], ""]]
+            if "x" in cells_at[("P",)]:
+                tgts.append(["ce", ["P"], [], "x"])
+            tgt = rng.choice(tgts)
+            refs_at[("P",)]["o"] = {"v": tgt, "mode": rng.choice(["auto", "relative", "absolute"])}
+            users = [(q, c) for q in (("P",), ("P", "C"), ("P", "Q")) if q in cells_at
+                     for c in cells_at[q] if c != "x"]
+            for q, c in rng.sample(users, min(len(users), rng.choice([1, 2]))):
+                crec = cells_at[q][c]
+                f = copy.deepcopy(defs["flib"][crec["f"]])
+                if tgt[0] == "ce":
+                    op = ["call", ["o"], [["c", rng.choice([0, 1])] for _ in defs["sigs"]["x"]], "pos"]
+                elif tgt[1] == ["P"] and "x" in cells_at[("P",)] and rng.random() < 0.5:
+                    op = ["call", ["o", "x"], [["c", rng.choice([0, 1])] for _ in defs["sigs"]["x"]], "pos"]
+                else:
+                    op = ["read", ["o", "p"]]
+                f["ops"].insert(rng.randrange(1, len(f["ops"]) + 1), op)
+                nf[0] += 1
+                fid = "X%d" % nf[0]
+                defs["flib"][fid] = f
+                crec["f"] = fid
     # --- restriction to the export subset (see ASSUMPTIONS in eng_export.py) ---
     for f in defs["flib"].values():
         if "pfrefs" not in extra:
@@ -301,7 +328,7 @@ def enumerate_queries(w, rng):
                  "instance_child" if dyn and steps[-1][0] == "c" else
                  "instance" if dyn else "derived" if derived else "static")
         cells_of(space, path, steps, klass)
-        if space.formula is not None and depth < 2:
+        if space.formula is not None and depth < 2 and not (steps and steps[-1][0] == "i"):
             names, nreq = _sig(space.formula.func)
             for i, args in enumerate(_arg_tuples(names, nreq)):
                 if not args:
